@@ -187,6 +187,11 @@ impl StorageRecords {
         (pos, size)
     }
 
+    #[cfg(agdb_verif)]
+    pub fn verif_free_regions(&self) -> Vec<(u64, u64)> {
+        self.free_pos_size.iter().map(|(p, s)| (*p, *s)).collect()
+    }
+
     #[allow(dead_code)]
     pub fn free_size(&self) -> u64 {
         self.free_size
